@@ -504,6 +504,11 @@ def effects_of(pkg, fn):
                     out.append(("stdout", "print(file=sys.stdout)", node.lineno))
         if name in ("sys.stdout.write", "sys.stdout.writelines"):
             out.append(("stdout", name, node.lineno))
+    for d in fn.node.decorator_list:
+        dn = ast.unparse(d)
+        if any(t in dn for t in ("lru_cache", "functools.cache", "cached_property")) or dn in ("cache", "memoize", "memoized"):
+            out.append(("global-write", "memoised by @%s: one result object is shared by all later calls" % dn[:40], fn.node.lineno))
+    restored = _restored_in_finally(fn.node)
     # writes to module-level / class-level state
     for n in _own_nodes(fn.node):
         if isinstance(n, ast.Global):
@@ -522,12 +527,20 @@ def effects_of(pkg, fn):
                 if root is None or via == "name":
                     continue
                 kind = shared_kind(pkg, fn, root)
+                if not kind and isinstance(sub, ast.Subscript):
+                    kind = class_table_kind(pkg, fn, sub.value)
+                if kind and ast.unparse(sub) in restored:
+                    continue          # saved before and put back in a finally block of the same function
                 if kind:
                     out.append(("global-write", "%s of %s (%s)" % (via, ast.unparse(sub)[:60], kind), n.lineno))
+        if isinstance(n, ast.Assign) and isinstance(n.value, ast.Name) and any(isinstance(t, ast.Attribute) for t in n.targets):
+            dk = shared_kind(pkg, fn, n.value)
+            if dk and dk.startswith("mutable default"):
+                out.append(("global-write", "%s escapes into %s" % (dk, ast.unparse(n.targets[0])[:40]), n.lineno))
         if isinstance(n, ast.Call) and isinstance(n.func, ast.Attribute) and n.func.attr in MUTATORS:
             root, via = _store_root(n.func.value, allow_name=True)
             if root is not None:
-                kind = shared_kind(pkg, fn, root)
+                kind = shared_kind(pkg, fn, root) or class_table_kind(pkg, fn, n.func.value)
                 if kind:
                     out.append(("global-write", ".%s() on %s (%s)" % (n.func.attr, ast.unparse(n.func.value)[:60], kind), n.lineno))
         if isinstance(n, ast.Call) and isinstance(n.func, ast.Name) and n.func.id == "setattr" and n.args:
@@ -537,6 +550,48 @@ def effects_of(pkg, fn):
                 if kind:
                     out.append(("global-write", "setattr(%s, ...) (%s)" % (ast.unparse(n.args[0])[:40], kind), n.lineno))
     return out
+
+
+def _restored_in_finally(fnode):
+    out = set()
+    for n in ast.walk(fnode):
+        if isinstance(n, ast.Try) and n.finalbody:
+            for st in n.finalbody:
+                if isinstance(st, ast.Assign):
+                    for t in st.targets:
+                        out.add(ast.unparse(t))
+    return out
+
+
+def class_table_kind(pkg, fn, expr):
+    """expr is `<local>.attr` where attr is a class-level dict/list/set of some package class that no method rebinds
+    per instance: the mutation goes to the table shared by every instance"""
+    if not (isinstance(expr, ast.Attribute) and isinstance(expr.value, ast.Name)):
+        return None
+    if pkg.resolve_name(fn, expr.value.id)[0] != "local":
+        return None
+    attr = expr.attr
+    for (m, cname), names in pkg.class_vars.items():
+        if attr not in names:
+            continue
+        cnode = pkg.classes[m][cname]
+        mutable = False
+        for st in cnode.body:
+            if isinstance(st, ast.Assign) and any(isinstance(t, ast.Name) and t.id == attr for t in st.targets):
+                v = st.value
+                if isinstance(v, (ast.Dict, ast.List, ast.Set)) or (isinstance(v, ast.Call) and isinstance(v.func, ast.Name) and v.func.id in ("dict", "list", "set", "defaultdict")):
+                    mutable = True
+        if not mutable:
+            continue
+        rebound = False
+        for sub in ast.walk(cnode):
+            if isinstance(sub, ast.Assign):
+                for t in sub.targets:
+                    if isinstance(t, ast.Attribute) and isinstance(t.value, ast.Name) and t.value.id == "self" and t.attr == attr:
+                        rebound = True
+        if not rebound:
+            return "class-level table %s.%s.%s reached through an instance" % (m, cname, attr)
+    return None
 
 
 def _store_root(t, allow_name=False):
